@@ -740,3 +740,122 @@ def notify_writer(ctx, res):
     if ok:
         res.oblige(True, "notify-store", "", "")
     res.floor(1)
+
+
+# ---------------------------------------------------------------------------
+# round-6 clauses
+
+@rule("C16.maintenance-unfiltered", ["C16"],
+      "the notify wrapper behind dispatch='extended' - the one that carries "
+      "the listener's own link-maintenance handlers - delivers every change "
+      "event: it applies no change filter (an intermediate object replaced by "
+      "an *equal* one must still be re-hooked)")
+def maintenance_unfiltered(ctx, res):
+    repo = get_pyrepo(ctx)
+    TN_ = "traits/trait_notifiers.py"
+    mod = repo.module(TN_)
+    # which class serves 'extended'
+    target = None
+    for a in ast.walk(repo.module(HT).tree):
+        if isinstance(a, ast.Dict):
+            for k, v in zip(a.keys, a.values):
+                if isinstance(k, ast.Constant) and k.value == "extended" \
+                        and isinstance(v, ast.Name):
+                    target = v.id
+    if target is None or target not in mod.classes:
+        raise AnalysisError("dispatch table entry for 'extended' not found")
+    cls = mod.classes[target]
+    res.instance(target, mod.loc(cls.node))
+    ok = True
+    for mname in ("_dispatch_change_event", "__call__", "dispatch"):
+        fn = cls.methods.get(mname)
+        if fn is None:
+            continue
+        for c in ast.walk(fn):
+            if isinstance(c, ast.Call) and isinstance(c.func, ast.Name) \
+                    and c.func.id == "_change_accepted":
+                ok = False
+                res.violation(f"{target}.{mname}:filtered", mod.loc(c),
+                              f"{target}.{mname} consults _change_accepted: "
+                              f"the link-maintenance handlers of "
+                              f"on_trait_change are installed with "
+                              f"dispatch='extended' and must see every "
+                              f"change - a link replaced by an equal (but "
+                              f"different) object would keep the listener on "
+                              f"the old object and miss the new one")
+    if ok:
+        res.oblige(True, target, "", "")
+    res.floor(1)
+
+
+@rule("C16.table-entry-lifetime", ["C16"],
+      "the per-name entry of an object's listener table is deleted only once "
+      "its wrapper list is empty: collecting (or removing) one registration "
+      "must not evict the others filed under the same extended name")
+def table_entry_lifetime(ctx, res):
+    repo = get_pyrepo(ctx)
+    from ..pyfacts import atomic_facts, normalize_guards
+    sites = [(TL, "ListenerNotifyWrapper.listener_deleted"),
+             (HT, "HasTraits.on_trait_change")]
+    n = 0
+    for rel, qual in sites:
+        mod = repo.module(rel)
+        fn = normalize_guards(repo.func(rel, qual))
+        # the local bound to the per-object table (…get(TraitsListener…) /
+        # setdefault) and the local bound to one name's wrapper list
+        table = lst = None
+        for a in ast.walk(fn):
+            if isinstance(a, ast.Assign) and len(a.targets) == 1 \
+                    and isinstance(a.targets[0], ast.Name):
+                v = norm(a.value)
+                if "TraitsListener" in v and "__dict__" in v:
+                    table = a.targets[0].id
+        if table is None:
+            raise AnalysisError(f"{qual}: listener table local not found")
+        par = {}
+        for p_ in ast.walk(fn):
+            for c_ in ast.iter_child_nodes(p_):
+                par[id(c_)] = p_
+        dels = []
+        for x in ast.walk(fn):
+            if isinstance(x, ast.Delete):
+                for t in x.targets:
+                    if isinstance(t, ast.Subscript) and norm(t.value) == table:
+                        dels.append((x, "del"))
+            if isinstance(x, ast.Call) and isinstance(x.func, ast.Attribute) \
+                    and x.func.attr in ("pop", "popitem", "clear") \
+                    and norm(x.func.value) == table:
+                dels.append((x, x.func.attr))
+        res.instance(qual, mod.loc(fn), deletions=len(dels))
+        n += 1
+        ok = True
+        for x, how in dels:
+            guards = []
+            y = par.get(id(x))
+            prev = x
+            while y is not None and y is not fn:
+                if isinstance(y, ast.If):
+                    in_body = any(prev is b or any(prev is z for z in ast.walk(b))
+                                  for b in y.body)
+                    guards.append(atomic_facts(fn, y.test, in_body))
+                prev = y
+                y = par.get(id(y))
+            emptiness = any(
+                any((t == "T" and (a.startswith("len(") and a.endswith(") == 0")))
+                    or (t == "F" and not a.startswith("len(")
+                        and " " not in a and a != table)
+                    or (t == "T" and a.startswith("not "))
+                    for t, a in g) for g in guards)
+            if not emptiness:
+                ok = False
+                res.violation(f"{qual}:entry-deleted-unconditionally",
+                              mod.loc(x),
+                              f"{qual} removes the per-name entry of the "
+                              f"listener table (`{norm(x)[:50]}`) without "
+                              f"having found its wrapper list empty: the "
+                              f"other registrations under that extended name "
+                              f"disappear from the table - they stop being "
+                              f"maintained and can no longer be removed")
+        if ok:
+            res.oblige(True, qual, "", "")
+    res.floor(2)
